@@ -23,6 +23,13 @@ class ExprArraySumModel(ExprDynamicModel):
     def build(self, btor, ctx_width=-1):
         return self.arr.build_sum_expr(btor, ctx_width)
     
+    def val(self):
+        from vsc.model.value_scalar import ValueScalar
+        ret = 0
+        for i in range(int(self.arr.size.get_val())):
+            ret += int(self.arr.field_l[i].get_val())
+        return ValueScalar(ret)
+    
     def accept(self, v):
         v.visit_expr_array_sum(self)
     
